@@ -6,10 +6,16 @@ from oracle_util import *  # noqa
 from protocol import from_real
 
 ID = "C11"
-LEAN_MODULE = ["SCoda.Props.C11", "SCoda.Props.C11b"]
+LEAN_MODULE = ["SCoda.Props.C11", "SCoda.Props.C11b", "SCoda.Props.C11c"]
 CLAUSES = [
-    ("every public operation with integer arguments leaves every time value in both views integer-typed "
-     "(layer 1: the Lean model is Int-typed and the correspondence prints Python times with their type — by construction, no theorem)", None),
+    ("every public operation with integer arguments leaves every time value in both views integer-typed: a float-taint typing "
+     "of all functions of the modelled files, regenerated from the source on every run (Gen/TaintFacts.lean), with a certificate "
+     "the kernel checks to be closed under the typing rules and under which no tick sink (store into .time, time= keyword, "
+     "third positional argument of Message, argument handed to a function of the modelled files, value returned/appended by "
+     "the duration and velocity-bin helpers, tick formatted into a token) is maybe-float; in addition the Lean model is "
+     "Int-typed and the correspondence prints Python times with their type",
+     ["SCoda.C11.cert_closed", "SCoda.C11.no_float_reaches_a_tick", "SCoda.C11.sinks_seen", "SCoda.C11.float_fn_found",
+      "SCoda.C11.least_le_cert"]),
     ("the capacity / bar-length expressions of Bar, the bar splitter and the tokeniser are int-typed and equal the model's floor division (PyNum); int()/round() always return ints",
      ["SCoda.C11.barCapacityPy_int", "SCoda.C11.splitBarLenPy_int", "SCoda.C11.tokCapacityPy_int", "SCoda.C11.barCapacityPy_eq",
       "SCoda.C11.splitBarLenPy_eq", "SCoda.C11.tokCapacityPy_eq", "SCoda.C11.pyround_int", "SCoda.C11.pyint_int"]),
@@ -20,7 +26,11 @@ CLAUSES = [
 RULE = ("histories of <=6 (quick) / <=12 (thorough) public operations over integer-tick inputs, then bars (short, unequal "
         "tracks), compositions, tokenise/detokenise of the result; the canonical form prints every time with its Python type; "
         "non-trivial = history with >= 2 mutators; plus padded-bar cases")
-ASSUMPTIONS = ["the Lean model is typed over Int, so agreement with it on an input is the statement that the implementation produced ints there",
+ASSUMPTIONS = ["typing rules of the taint analysis are trusted as a description of Python's numeric tower: + - * // % min max abs of "
+               "ints are ints; / , ** with an exponent not known non-negative, float literals, float(), math.*, np.* may be floats; "
+               "int()/round()/len() return ints; attribute reads and parameters are int-typed (the property's premise); "
+               "`x ** p` with p a parameter defaulting to a non-negative literal is read as int (Gen.powAssumptions)",
+               "the Lean model is typed over Int, so agreement with it on an input is the statement that the implementation produced ints there",
                "scale with a non-integer factor is outside the property (integer arguments)"]
 
 
